@@ -175,10 +175,11 @@ func pbToTransaction(t *middleware_pb.Transaction) Transaction {
 		sign = common.BytesToSign(t.Sign)
 	}
 
-	transaction := Transaction{Data: data, Nonce: *t.Nonce, RequestId: *t.RequestId, Source: source,
+	// optional fields may be absent on the wire: the generated getters return the zero value
+	transaction := Transaction{Data: data, Nonce: t.GetNonce(), RequestId: t.GetRequestId(), Source: source,
 		Target: target, Hash: common.BytesToHash(t.Hash),
-		ExtraData: string(t.ExtraData), ExtraDataType: *t.ExtraDataType, Type: *t.Type, Sign: sign,
-		Time: *t.Time, SocketRequestId: socketRequestId, SubTransactions: subTransactions, SubHash: common.BytesToHash(t.SubHash), ChainId: *t.ChainId}
+		ExtraData: string(t.ExtraData), ExtraDataType: t.GetExtraDataType(), Type: t.GetType(), Sign: sign,
+		Time: t.GetTime(), SocketRequestId: socketRequestId, SubTransactions: subTransactions, SubHash: common.BytesToHash(t.SubHash), ChainId: t.GetChainId()}
 
 	return transaction
 }
@@ -245,10 +246,10 @@ func PbToBlockHeader(h *middleware_pb.BlockHeader) *BlockHeader {
 		proveValue = nil
 	}
 	//log.Printf("PbToBlockHeader height:%d StateTree Hash:%s",*h.Height,common.Bytes2Hex(h.StateTree))
-	header := BlockHeader{Hash: common.BytesToHash(h.Hash), Height: *h.Height, PreHash: common.BytesToHash(h.PreHash), PreTime: preTime,
+	header := BlockHeader{Hash: common.BytesToHash(h.Hash), Height: h.GetHeight(), PreHash: common.BytesToHash(h.PreHash), PreTime: preTime,
 		ProveValue: proveValue, CurTime: curTime, Castor: h.Castor, GroupId: h.GroupId, Signature: h.Signature,
-		Nonce: *h.Nonce, Transactions: hashes, TxTree: common.BytesToHash(h.TxTree), ReceiptTree: common.BytesToHash(h.ReceiptTree), StateTree: common.BytesToHash(h.StateTree),
-		ExtraData: h.ExtraData, TotalQN: *h.TotalQN, Random: h.Random, EvictedTxs: hashes2}
+		Nonce: h.GetNonce(), Transactions: hashes, TxTree: common.BytesToHash(h.TxTree), ReceiptTree: common.BytesToHash(h.ReceiptTree), StateTree: common.BytesToHash(h.StateTree),
+		ExtraData: h.ExtraData, TotalQN: h.GetTotalQN(), Random: h.Random, EvictedTxs: hashes2}
 
 	if nil != h.RequestIds {
 		json.Unmarshal(h.RequestIds, &header.RequestIds)
@@ -271,6 +272,9 @@ func PbToBlock(b *middleware_pb.Block) *Block {
 }
 
 func PbToGroupHeader(g *middleware_pb.GroupHeader) *GroupHeader {
+	if g == nil {
+		return nil
+	}
 	var beginTime time.Time
 	beginTime.UnmarshalBinary(g.BeginTime)
 	header := GroupHeader{
@@ -279,8 +283,8 @@ func PbToGroupHeader(g *middleware_pb.GroupHeader) *GroupHeader {
 		PreGroup:        g.PreGroup,
 		BeginTime:       beginTime,
 		MemberRoot:      common.BytesToHash(g.MemberRoot),
-		CreateHeight:    *g.CreateHeight,
-		Extends:         *g.Extends,
+		CreateHeight:    g.GetCreateHeight(),
+		Extends:         g.GetExtends(),
 		CreateBlockHash: g.CreateBlockHash,
 	}
 	return &header
@@ -296,7 +300,7 @@ func PbToGroup(g *middleware_pb.Group) *Group {
 		Members:     g.Members,
 		PubKey:      g.PubKey,
 		Signature:   g.Signature,
-		GroupHeight: *g.GroupHeight,
+		GroupHeight: g.GetGroupHeight(),
 	}
 	return &group
 }
